@@ -33,7 +33,7 @@ Proof.
 Qed.
 
 (* Collecting ids / ranking (for_each, for_each_no_score, for_each_pruning on the root weight). *)
-Theorem C03_collect_sound : forall accepts seg sc q, has_f31_below_root q = false ->
+Theorem C03_collect_sound : forall accepts seg sc q, has_f31_below_root sc q = false ->
   map (doc_at seg) (collected seg (collect_model seg (std_leaf_scorer accepts seg) sc q)) = eval accepts seg q.
 Proof.
   intros accepts seg sc q HF. rewrite <- eval_ids_eval. f_equal. apply collected_eq.
@@ -46,13 +46,23 @@ Theorem C03_count_agrees : forall accepts seg sc q, has_f31 q = false ->
 Proof. exact count_model_agrees. Qed.
 
 (* Scoring enabled or disabled: the same documents. *)
-Theorem C03_scoring_irrelevant : forall accepts seg q, has_f31_below_root q = false ->
+Theorem C03_scoring_irrelevant : forall accepts seg q,
+  has_f31_below_root true q = false -> has_f31_below_root false q = false ->
   collected seg (collect_model seg (std_leaf_scorer accepts seg) true q)
   = collected seg (collect_model seg (std_leaf_scorer accepts seg) false q).
 Proof.
-  intros accepts seg q HF.
-  rewrite !(collected_eq accepts seg _ q); [reflexivity| |];
-    intros i Hi; exact (collect_model_sound accepts seg _ (std_leaf_sound accepts seg) (std_leaf_allok accepts seg) _ q HF i Hi).
+  intros accepts seg q HT HF.
+  rewrite !(collected_eq accepts seg _ q); [reflexivity| |]; intros i Hi.
+  - exact (collect_model_sound accepts seg _ (std_leaf_sound accepts seg) (std_leaf_allok accepts seg) _ q HF i Hi).
+  - exact (collect_model_sound accepts seg _ (std_leaf_sound accepts seg) (std_leaf_allok accepts seg) _ q HT i Hi).
+Qed.
+
+(* in particular for every tree without a node of class F31 *)
+Theorem C03_scoring_irrelevant_no_f31 : forall accepts seg q, has_f31 q = false ->
+  collected seg (collect_model seg (std_leaf_scorer accepts seg) true q)
+  = collected seg (collect_model seg (std_leaf_scorer accepts seg) false q).
+Proof.
+  intros accepts seg q H. apply C03_scoring_irrelevant; now apply has_f31_below_root_weaker.
 Qed.
 
 (* Any split of the corpus into segments gives the answer of the whole corpus. *)
@@ -149,6 +159,7 @@ Print Assumptions C03_boolean_sound.
 Print Assumptions C03_collect_sound.
 Print Assumptions C03_count_agrees.
 Print Assumptions C03_scoring_irrelevant.
+Print Assumptions C03_scoring_irrelevant_no_f31.
 Print Assumptions C03_segmentation.
 Print Assumptions C03_deleted_never_appear.
 Print Assumptions C03_merge_transparent.
